@@ -146,10 +146,28 @@ def run(ctx):
             objs.append((g, c))
         buf = io.BytesIO()
         try:
+            # every group also as an explicit object with a property of its own, plus one group that has no channels at all
+            lone = rnd.choice(["", "", "lone", rand_name(rnd)])
+            try:
+                lone.encode("utf-8")
+            except UnicodeEncodeError:
+                lone = ""
+            group_names = sorted({g for g, _ in objs} | {lone})
             with TdmsWriter(buf) as w:
-                w.write_segment([ChannelObject(g, c, np.array([i, i + 1], dtype=np.int32), {"n": g + "|" + c}) for i, (g, c) in enumerate(objs)])
+                w.write_segment([GroupObject(g, {"gp": "<" + g + ">"}) for g in group_names]
+                                + [ChannelObject(g, c, np.array([i, i + 1], dtype=np.int32), {"n": g + "|" + c}) for i, (g, c) in enumerate(objs)])
             buf.seek(0)
             f = TdmsFile.read(buf)
+            got_groups = sorted(gr.name for gr in f.groups())
+            if got_groups != group_names:
+                violations.append(Violation("groups written %r, groups read %r" % (group_names, got_groups), dict(kind="e2e", objects=objs, lone_group=lone)))
+            else:
+                for g in group_names:
+                    gr = f[g]
+                    exp_gpath = "/'" + g.replace("'", "''") + "'"
+                    if (gr.name, gr.path, gr.properties.get("gp")) != (g, exp_gpath, "<" + g + ">"):
+                        violations.append(Violation("group %r read back as name=%r path=%r properties=%r" % (g, gr.name, gr.path, dict(gr.properties)), dict(kind="e2e", objects=objs, lone_group=lone)))
+                        break
         except Exception as ex:  # noqa
             violations.append(Violation("writing / reading channels named %r raised %s: %s" % (objs, type(ex).__name__, ex), dict(kind="e2e", objects=objs)))
             continue
